@@ -31,7 +31,7 @@ RULE = ("case = one point of the union of three complete sub-lattices (method / 
         "with autograd through a dense column-by-column torch.linalg.solve reference built from the same leaves; "
         "exceptions are violations; points whose forward or backward solver raised a ConvergenceWarning are not "
         "judged numerically; distinct = distinct observation hashes; trivial = forward warned")
-RULE_ADDED = 'Added later: placements add_dense / matmul_dense / sub_two, operator tensor reassigned between forward and backward (mut), dependent parameters, call-order plane in fresh interpreters. Round 4: placements view_two / detach_two (distinct tensors sharing storage), scale_in_sum. Rounds 5-6: placement const (operator without declared parameters); plane ezero (every shift exactly zero).'
+RULE_ADDED = 'Added later: placements add_dense / matmul_dense / sub_two, operator tensor reassigned between forward and backward (mut), dependent parameters, call-order plane in fresh interpreters. Round 4: placements view_two / detach_two (distinct tensors sharing storage), scale_in_sum. Rounds 5-6: placement const (operator without declared parameters); plane ezero (every shift exactly zero). Round 7: graph history prior_plain (a plain backward pass with retain_graph over the same graph before the recording pass that is judged).'
 ASSUMPTIONS = [
     "A = L A0 L^H (value of the leaf), M = Pm Pm^H + I = L L^H, A0 non-normal with singular values in [0.7, 3.3]; "
     "Hermitian placements use P P^H + I; kappa of every A - e_c M is measured and enters the tolerance",
@@ -164,6 +164,12 @@ def cases(tier, seed):
                                 out.append(mk(plane="subset", place=place, fwd=fwd, bck=bck, E=em, Edtype=ed, dtype=dtype,
                                               n=3, ncols=2, req=req, order=order, cot=cot, reuse=(order != "2"),
                                               **_pat(em, pat)))
+                                if order != "1" and cot == "dense" and len(req) == len(groups):
+                                    # graph history: a plain backward pass (retain_graph) over the same graph first,
+                                    # then the recording one that is judged
+                                    out.append(mk(plane="subset", place=place, fwd=fwd, bck=bck, E=em, Edtype=ed,
+                                                  dtype=dtype, n=3, ncols=2, req=req, order=order, cot=cot,
+                                                  reuse=(order != "2"), prior_plain=True, **_pat(em, pat)))
     # ---- the operator object is given another tensor between forward and backward
     for dtype in ["f64", "c128"]:
         for place in ("mf_leaf", "mf_leaf_mv"):
@@ -618,6 +624,13 @@ def run_case(cfg):
                 viol.append(V("grad-missing:" + group_of[nm], {"leaf": nm, "reference_max": sc_}, leaf=nm, stage="first"))
         return {"viol": viol, "obs": {"x_requires_grad": False}, "status": "violation" if viol else "ok"}
 
+    if cfg.get("prior_plain"):
+        torch.manual_seed(978)
+        with sc.quiet_stderr():
+            o0 = call(torch.autograd.grad, loss, req, retain_graph=True, allow_unused=True)
+        if o0.exc is not None:
+            return {"viol": [V("backward-" + exc_class(o0.exc), {"exception": o0.exc_sig}, stage="prior-plain")],
+                    "obs": {"bck": exc_class(o0.exc)}, "status": "violation"}
     torch.manual_seed(978)
     with sc.quiet_stderr():
         o1 = call(torch.autograd.grad, loss, req, create_graph=create, retain_graph=(create or cfg["reuse"]),
